@@ -32,7 +32,7 @@ def scen_space(rep):
         data = json.load(open(out))
     finally:
         shutil.rmtree(d, ignore_errors=True)
-    for k in ("g3", "g4"):
+    for k in ("g3", "g4", "parts6", "parts7"):
         data[k].sort(key=lambda g: json.dumps(g, sort_keys=True))
     return data
 
@@ -67,6 +67,27 @@ def run(tier):
                             n=n, br=g["br"], slacks=s, off=off, shuntsw=[n] if (k + j) % 2 == 0 else [],
                             via="alter" if (k + j) % 3 else "set", idx_kind="int" if (k + j) % 4 else "str",
                             parallel=("on" if (k + j) % 5 == 0 else ("off" if (k + j) % 5 == 1 else None))))
+    # many islands with interleaved bus numbering: TLC-enumerated set partitions of 6 / 7 buses (>= 3 blocks)
+    parts = [(6, p) for p in sp["parts6"]] + [(7, p) for p in sp["parts7"]]
+    if quick:
+        rnd.shuffle(parts)
+        parts = parts[:90]
+    for k, (n, f) in enumerate(parts):
+        blocks = {}
+        for i, b in enumerate(f):
+            blocks.setdefault(b, []).append(i + 1)
+        br = []
+        for b, mem in sorted(blocks.items()):
+            for a, c in zip(mem, mem[1:]):
+                br.append(dict(i=a, j=c, st="on"))
+            if len(mem) > 2 and k % 2:
+                br.append(dict(i=mem[0], j=mem[-1], st="on"))
+        # an out-of-service branch between two blocks must not merge them
+        keys = sorted(blocks)
+        br.append(dict(i=blocks[keys[0]][0], j=blocks[keys[1]][0], st="off"))
+        s = [dict(bus=blocks[keys[k % len(keys)]][0], u=1)]
+        scs.append(dict(sid="part%d[%s|slack=%d]" % (n, "".join(map(str, f)), s[0]["bus"]), n=n, br=br, slacks=s, off=[],
+                        shuntsw=[], via="alter", idx_kind="int" if k % 3 else "str", pflow=False))
     # larger graphs: seeded random (not from TLC: 3^10 graphs)
     for k in range(40 if quick else 1500):
         n = rnd.choice([5, 6])
